@@ -57,7 +57,12 @@ impl Extension {
 
     pub(crate) fn vec_from_document(document: &Document) -> Vec<Extension> {
         let mut extensions = Vec::new();
+        // A prefix bound to the namespace of the root element names the E57 standard itself, not an extension
+        let standard = document.root_element().tag_name().namespace();
         for item in document.root_element().namespaces() {
+            if Some(item.uri()) == standard {
+                continue;
+            }
             if let Some(name) = item.name() {
                 extensions.push(Extension {
                     namespace: name.to_string(),
